@@ -1,7 +1,7 @@
 (* C11 — column and table slices keep their structural invariants.  Statements only; proofs in
    CsFacts.v and SliceFacts.v.  The payload type V of a caller-built slice is the identity of a
    value array (a handle): "the very same array" is equality of payloads. *)
-From Sbdf Require Import Imp ImpCall Gen.Prog ImpBase ImpFactsCap ImpFactsCells ImpFactsGrow ImpFactsSlice ImpFactsRelease.
+From Sbdf Require Import Imp ImpCall Gen.Prog ImpBase ImpFactsCap ImpFactsCells ImpFactsGrow ImpFactsSlice ImpFactsCsAdd ImpFactsRelease.
 From Coq Require Import List.
 From Sbdf Require Import Slice CsFacts SliceFacts MdFacts.
 
@@ -157,6 +157,55 @@ Theorem C11_source_ts_add_regrow : forall k sx m h tb meta n cols owned colb cce
     Imp.lookup cells_var (vars fin) = Some (VHeap (if k =? 0 then h else h2)).
 Proof. exact ts_add_regrow_source. Qed.
 Print Assumptions C11_source_ts_add_regrow.
+
+(* sbdf_cs_add_property from the source: the three ways a call that finds room can end.  The column and the new
+   array are any value arrays (plain, run-length, bit-packed: row_cnt_of), the property list any list of names. *)
+Section CsAdd.
+Variables (k : Z) (sx m : list Z) (h : heap) (cb : nat) (values names props : val) (owned : Z) (vb : nat) (ty1 enc1 v11 : Z)
+  (o11 o12 : val) (ob1 : nat) (oty1 cnt1 : Z) (data1 : val) (ab : nat) (ty2 enc2 v21 : Z) (o21 o22 : val) (ob2 : nat)
+  (oty2 cnt2 : Z) (data2 : val) (pn : list (list Z)).
+Hypothesis Hc : cs_block h cb values (zlen pn) names props owned.
+Hypothesis Hvals : as_ptr values = VCell vb 0.
+Hypothesis Hv1 : va_block h vb ty1 enc1 v11 o11 o12.
+Hypothesis He1 : int_min <= enc1 <= int_max.
+Hypothesis Hp1 : enc1 = SBDF_PLAINARRAYENCODINGTYPEID -> as_ptr o11 = VCell ob1 0 /\ obj_block h ob1 oty1 cnt1 data1.
+Hypothesis Hv2 : va_block h ab ty2 enc2 v21 o21 o22.
+Hypothesis He2 : int_min <= enc2 <= int_max.
+Hypothesis Hp2 : enc2 = SBDF_PLAINARRAYENCODINGTYPEID -> as_ptr o21 = VCell ob2 0 /\ obj_block h ob2 oty2 cnt2 data2.
+Hypothesis Hr1 : int_min <= row_cnt_of enc1 v11 cnt1 <= int_max.
+Hypothesis Hr2 : int_min <= row_cnt_of enc2 v21 cnt2 <= int_max.
+
+Theorem C11_source_cs_add_property_mismatch : forall q, row_cnt_of enc1 v11 cnt1 <> row_cnt_of enc2 v21 cnt2 ->
+  exists f0, forall f, (f0 <= f)%nat -> exists fin,
+    callC prog_env f prog_sbdf_cs_add_property [VCell cb 0; VPtr RIn q; VCell ab 0] m k sx h = OReturn (VInt SBDF_ERROR_ROW_COUNT_MISMATCH) fin /\
+    inb fin = m /\ Imp.lookup cells_var (vars fin) = Some (VHeap h).
+Proof. exact (cs_add_mismatch_source k sx m h cb values names props owned vb ty1 enc1 v11 o11 o12 ob1 oty1 cnt1 data1 ab ty2 enc2 v21 o21 o22 ob2 oty2 cnt2 data2 pn Hc Hvals Hv1 He1 Hp1 Hv2 He2 Hp2 Hr1 Hr2). Qed.
+
+Theorem C11_source_cs_add_property_clash : forall q name nb ncells j, row_cnt_of enc1 v11 cnt1 = row_cnt_of enc2 v21 cnt2 ->
+  as_ptr names = VCell nb 0 -> nth_error h nb = Some (Some ncells) -> names_at m ncells pn -> cstr_at m q name -> zlen pn < int_max ->
+  find_name name pn 0 = Some j ->
+  exists f0, forall f, (f0 <= f)%nat -> exists fin,
+    callC prog_env f prog_sbdf_cs_add_property [VCell cb 0; VPtr RIn q; VCell ab 0] m k sx h = OReturn (VInt SBDF_ERROR_PROPERTY_ALREADY_EXISTS) fin /\
+    inb fin = m /\ Imp.lookup cells_var (vars fin) = Some (VHeap h).
+Proof. exact (cs_add_clash_source k sx m h cb values names props owned vb ty1 enc1 v11 o11 o12 ob1 oty1 cnt1 data1 ab ty2 enc2 v21 o21 o22 ob2 oty2 cnt2 data2 pn Hc Hvals Hv1 He1 Hp1 Hv2 He2 Hp2 Hr1 Hr2). Qed.
+
+Theorem C11_source_cs_add_property_room : forall nb ncells pb pcells pre bytes post oldn oldp h1 h2 h3, row_cnt_of enc1 v11 cnt1 = row_cnt_of enc2 v21 cnt2 ->
+  m = pre ++ bytes ++ 0 :: post ->
+  as_ptr names = VCell nb 0 -> nth_error h nb = Some (Some ncells) -> names_at m ncells pn -> zlen pn <= 715827881 ->
+  Forall (fun b => b <> 0) bytes -> zlen bytes + 1 <= int_max ->
+  find_name bytes pn 0 = None -> array_capacity (zlen pn) <> zlen pn ->
+  as_ptr props = VCell pb 0 -> nth_error h pb = Some (Some pcells) ->
+  nth_error ncells (Z.to_nat (zlen pn)) = Some oldn -> nth_error pcells (Z.to_nat (zlen pn)) = Some oldp -> cb <> nb ->
+  (k <> 0 -> cell_set h nb (zlen pn) (VPtr RIn (zlen m + 4)) = Some h1 /\ cell_set h1 cb 1 (VInt (zlen pn + 1)) = Some h2 /\ cell_set h2 pb (zlen pn) (VCell ab 0) = Some h3) ->
+  exists f0, forall f, (f0 <= f)%nat -> exists fin,
+    callC prog_env f prog_sbdf_cs_add_property [VCell cb 0; VPtr RIn (zlen pre); VCell ab 0] m k sx h =
+      OReturn (VInt (if k =? 0 then SBDF_ERROR_OUT_OF_MEMORY else SBDF_OK)) fin /\
+    inb fin = (if k =? 0 then m else str_mem m bytes []) /\ Imp.lookup cells_var (vars fin) = Some (VHeap (if k =? 0 then h else h3)).
+Proof. exact (cs_add_room_source k sx m h cb values names props owned vb ty1 enc1 v11 o11 o12 ob1 oty1 cnt1 data1 ab ty2 enc2 v21 o21 o22 ob2 oty2 cnt2 data2 pn Hc Hvals Hv1 He1 Hp1 Hv2 He2 Hp2 Hr1 Hr2). Qed.
+End CsAdd.
+Print Assumptions C11_source_cs_add_property_mismatch.
+Print Assumptions C11_source_cs_add_property_clash.
+Print Assumptions C11_source_cs_add_property_room.
 
 (* the capacity rule makes the cases exhaustive and the first numbers concrete *)
 Example C11_capacity_values : map array_capacity [0; 1; 2; 3; 4; 5; 7; 8; 11; 12] = [0; 1; 2; 4; 4; 7; 7; 11; 11; 17].
